@@ -1,6 +1,10 @@
 //! Harness binary running under the ledger allocator: M1 operation-sequence streams.
+#[path = "../adv.rs"]
+mod adv;
 #[path = "../ledger.rs"]
 mod ledger;
+#[path = "../recycle.rs"]
+mod recycle;
 #[path = "../seq.rs"]
 mod seq;
 #[path = "../util.rs"]
@@ -19,6 +23,8 @@ fn main() {
     let rest = &args[2.min(args.len())..];
     let code = match mode {
         "seq" => seq::run(rest, &parity, profile),
+        "recycle" => recycle::run(rest),
+        "adv" => adv::run(rest),
         _ => {
             eprintln!("hseq: unknown mode {:?}", mode);
             2
